@@ -84,6 +84,8 @@ namespace
     const MeshData<Shape_>& md;
     std::string kp;
     int inv_lattice = 5;
+    bool strict_newton = true;
+    std::string ksuffix; // appended to the inverse-mapping keys (geometry class)
 
     TrafoChecker(verif::Ctx& c_, const MeshData<Shape_>& md_) : c(c_), md(md_) { kp = std::string("trafo/") + SI::name(); }
 
@@ -102,6 +104,7 @@ namespace
       }
       check_cells(trafo, geoms);
       inv_lattice = 3;
+      strict_newton = false;
       check_inverse(trafo, geoms);
     }
 
@@ -304,33 +307,67 @@ namespace
             c.count("inverse_points");
             bool threw = false;
             Trafo::InverseMappingData<double, D, D> res;
-            try { res = inv.unmap_point(xp); }
-            catch(const Trafo::InverseMappingError&) { threw = true; }
-            if(threw)
+            if(strict_newton)
             {
-              c.fail(kp + " inverse.throw", "unmap_point threw InverseMappingError for x=" + pt_str<D>(x) + " (image of xi=" + pt_str<D>(xi) + " of cell " + std::to_string(k) + ")");
-              return;
+              // well-shaped tiny meshes: the Newton iteration has to converge on every candidate cell
+              try { res = inv.unmap_point(xp); }
+              catch(const Trafo::InverseMappingError&) { threw = true; }
+              if(threw)
+              {
+                c.fail(kp + " inverse.throw" + ksuffix, "unmap_point threw InverseMappingError for x=" + pt_str<D>(x) + " (image of xi=" + pt_str<D>(xi) + " of cell " + std::to_string(k) + ")");
+                return;
+              }
+            }
+            else
+            {
+              // arbitrary meshes: failures on candidate cells that do not contain the point are documented behaviour
+              res = inv.unmap_point(xp, true);
             }
             std::vector<Index> got(res.cells.begin(), res.cells.end());
-            bool same = (got.size() == exp_cells.size());
-            for(size_t q = 0; same && q < got.size(); ++q) same = (got[q] == exp_cells[q]);
-            if(!same)
+            // (i) soundness: every returned (cell, reference point) maps onto x and lies on the reference cell
+            //     (within InverseMapping's documented domain tolerance 1e-4)
+            for(size_t q = 0; q < got.size(); ++q)
             {
-              std::string a, b;
-              for(Index l : got) a += std::to_string(l) + " ";
-              for(Index l : exp_cells) b += std::to_string(l) + " ";
-              c.fail(kp + " inverse.cells", "x=" + pt_str<D>(x) + ": unmap_point found cells [" + a + "], harness inverse finds [" + b + "]");
+              std::array<LD, D> eta;
+              for(int j = 0; j < D; ++j) eta[(size_t)j] = LD(res.dom_points[q][j]);
+              auto xb = geoms[got[q]].map(eta);
+              LD dist = 0, mag = 1;
+              for(int j = 0; j < D; ++j) { dist = std::max(dist, std::fabs(xb[(size_t)j] - x[(size_t)j])); mag = std::max(mag, std::fabs(x[(size_t)j])); }
+              if(!(dist <= LD(1e-9) * mag) || !geoms[got[q]].on_ref(eta, LD(1.0001e-4)))
+              {
+                c.fail(kp + " inverse.unsound" + ksuffix, "x=" + pt_str<D>(x) + ": returned cell " + std::to_string(got[q]) + " with reference point " + pt_str<D>(eta) + " which maps to " + pt_str<D>(xb));
+                return;
+              }
+            }
+            // (ii) completeness: every cell in which the harness inverse finds x is returned, with the same point
+            for(size_t e = 0; e < exp_cells.size(); ++e)
+            {
+              size_t q = 0;
+              while(q < got.size() && got[q] != exp_cells[e]) ++q;
+              if(q == got.size())
+              {
+                std::string a;
+                for(Index l : got) a += std::to_string(l) + " ";
+                c.fail(kp + " inverse.cells" + ksuffix, "x=" + pt_str<D>(x) + ": lies in cell " + std::to_string(exp_cells[e]) + " at " + pt_str<D>(exp_pts[e]) + ", unmap_point returned cells [" + a + "]");
+                return;
+              }
+              // where the map is locally injective the reference points agree
+              bool agree = true;
+              for(int j = 0; j < D; ++j) agree = agree && (std::fabs(LD(res.dom_points[q][j]) - exp_pts[e][(size_t)j]) <= LD(1e-8));
+              if(!agree && strict_newton)
+              {
+                c.fail(kp + " inverse.point" + ksuffix, "x=" + pt_str<D>(x) + " cell " + std::to_string(got[q]) + ": reference point differs from the harness inverse " + pt_str<D>(exp_pts[e]));
+                return;
+              }
+            }
+            // (iii) no spurious cells on the tiny well-shaped meshes
+            if(strict_newton && got.size() != exp_cells.size())
+            {
+              c.fail(kp + " inverse.extra-cells" + ksuffix, "x=" + pt_str<D>(x) + ": unmap_point returned " + std::to_string(got.size()) + " cells, the point lies in " + std::to_string(exp_cells.size()));
               return;
             }
-            for(size_t q = 0; q < got.size(); ++q)
-              for(int j = 0; j < D; ++j)
-                if(!(std::fabs(LD(res.dom_points[q][j]) - exp_pts[q][(size_t)j]) <= LD(1e-9)))
-                {
-                  c.fail(kp + " inverse.point", "x=" + pt_str<D>(x) + " cell " + std::to_string(got[q]) + ": reference point " + std::to_string(res.dom_points[q][j]) + " vs " + std::to_string(double(exp_pts[q][(size_t)j])));
-                  return;
-                }
             if(mode == 0)
-              c.check(std::find(got.begin(), got.end(), k) != got.end(), kp + " inverse.roundtrip", [&]{ return "x = map(xi) of cell " + std::to_string(k) + " is not found in that cell, xi=" + pt_str<D>(xi); });
+              c.check(std::find(got.begin(), got.end(), k) != got.end(), kp + " inverse.roundtrip" + ksuffix, [&]{ return "x = map(xi) of cell " + std::to_string(k) + " is not found in that cell, xi=" + pt_str<D>(xi); });
           }
         }
       }
@@ -354,7 +391,7 @@ namespace
           Twist tw; tw.edge_mode = t; if(D >= 3 && t) { tw.face_mode = 1; tw.face_code = 3; }
           MeshData<Shape_> md = make_one_cell<Shape_>(g, geo, tw);
           c.desc([&]{ return fam + " " + md.desc; });
-          TrafoChecker<Shape_>(c, md).run();
+          { TrafoChecker<Shape_> chk(c, md); if(geo == 5) chk.ksuffix = " far+large"; chk.run(); }
           if(g || geo || t) c.nontrivial(verif::Hash().str(fam).pod(md.hash()).get());
           c.outcome(fam); c.count("cases_1cell");
         }
@@ -368,7 +405,7 @@ namespace
           if(!c.want()) continue;
           MeshData<Shape_> md = make_two_cell<Shape_>(gA, gB, geo, Twist());
           c.desc([&]{ return fam + " " + md.desc; });
-          TrafoChecker<Shape_>(c, md).run();
+          { TrafoChecker<Shape_> chk(c, md); if(geo == 5) chk.ksuffix = " far+large"; chk.run(); }
           c.nontrivial(verif::Hash().str(fam).pod(md.hash()).get());
           c.outcome(fam); c.count("cases_2cell");
         }
@@ -398,7 +435,9 @@ namespace
   {
     typedef Geometry::ConformalMesh<Shape_, Shape_::dimension, double> MeshType;
     Geometry::MeshAtlas<MeshType> atlas;
-    auto node = reader.parse(atlas, nullptr);
+    std::unique_ptr<Geometry::RootMeshNode<MeshType>> node;
+    try { node = reader.parse(atlas, nullptr); }
+    catch(const std::exception&) { c.count("shipped_not_standalone_skipped"); return; } // needs a separate chart file
     MeshType* mesh = node->get_mesh();
     if(mesh == nullptr) { c.count("shipped_without_root_mesh"); return; }
     if(mesh->get_num_entities(Shape_::dimension) > 2000) { c.count("shipped_too_large_skipped"); return; }
@@ -423,6 +462,7 @@ int main(int argc, char** argv)
     "jac_mat against differences of map_point, integral of jac_det and volume() against an independent volume formula, edge/face evaluators "
     "(map, Jacobian, surface element), InverseMapping::unmap_point(map(xi)) for a 5^d lattice and for points pushed outside the cell (set of cells and "
     "reference points must equal the harness Newton inverse). Non-trivial = not the canonical reference cell.";
+  spec.max_fail_per_worker = 1000000;
   spec.bounds_quick = "line/tria/quad/tetra/hexa; 2-cell: all pairs in 1D/2D, star+diagonal pairs in 3D";
   spec.bounds_thorough = "all pairs of numberings in 3D as well (tetra 576, hexa 2304 per geometry)";
   spec.assumptions = {
